@@ -240,12 +240,20 @@ def exec_op(op: list, wl: Workload, cache: dict) -> str | None:
 
     kind, ci = op[0], op[1]
     cls = universe.by_name(wl.pool[ci])
-    if kind == "mkr":
-        entity_reader(cls, nullable=bool(op[2]))
-        return None
-    if kind == "mkw":
-        entity_writer(cls, nullable=bool(op[2]))
-        return None
+    # creating (or fetching) the cached closure must never fail for a schema class
+    try:
+        if kind == "mkr":
+            entity_reader(cls, nullable=bool(op[2]))
+            return None
+        if kind == "mkw":
+            entity_writer(cls, nullable=bool(op[2]))
+            return None
+        if kind in ("enc", "encn", "encbad"):
+            entity_writer(cls, nullable=(kind == "encn"))
+        else:
+            entity_reader(cls, nullable=(kind == "decn"))
+    except Exception as e:  # noqa: BLE001
+        return f"{kind}:creating-codec-raised:{type(e).__name__}"
     ii = op[2]
     g = wl.gold[ci][ii] if ii >= 0 else None
     if ii >= 0 and g is None:
@@ -457,8 +465,11 @@ def _faults_child(wl_json: dict, gold: list, ci: int, ii: int, others: list, pla
                 sig = _after_check(wl, ci, ii, others, cache, full=True, in_thread=False)
                 if sig is not None:
                     return done(phase, j, "interrupt", "after-build-interrupt:" + sig)
-    w = entity_writer(cls)
-    r = entity_reader(cls)
+    try:
+        w = entity_writer(cls)
+        r = entity_reader(cls)
+    except Exception as e:  # noqa: BLE001
+        return done("warm-up", -1, "none", f"creating-codec-raised-after-cold-phase:{type(e).__name__}")
     # -- I/O error raised by the sink at write call i
     if only is None or only[0] == "write":
         idxs = [only[1]] if only is not None else _indices(rng, W, 400)
